@@ -91,22 +91,27 @@ package wire
 
 //@ func (*ClientConn).readUpstreamChunkAckLoop
 //@   props C07
+//@   assert send: nonblocking   // a stream whose consumer is behind loses its own message instead of stalling the dispatcher of every stream
 //@   assert send: has(c.upstreams.acks, v.StreamIDAlias) && ch == c.upstreams.acks[v.StreamIDAlias] && unheld(c.upstreams.mu)
 
 //@ func (*ClientConn).readDownstreamChunkLoop
 //@   props C07
+//@   assert send: nonblocking   // a stream whose consumer is behind loses its own message instead of stalling the dispatcher of every stream
 //@   assert send: has(c.downstreams.dps, v.StreamIDAlias) && ch == c.downstreams.dps[v.StreamIDAlias] && unheld(c.downstreams.mu)
 
 //@ func (*ClientConn).readDownstreamChunkUnreliableLoop
 //@   props C07
+//@   assert send: nonblocking   // a stream whose consumer is behind loses its own message instead of stalling the dispatcher of every stream
 //@   assert send: has(c.downstreams.dpsUnreliable, v.StreamIDAlias) && ch == c.downstreams.dpsUnreliable[v.StreamIDAlias] && unheld(c.downstreams.mu)
 
 //@ func (*ClientConn).readDownstreamChunkAckCompleteLoop
 //@   props C07
+//@   assert send: nonblocking   // a stream whose consumer is behind loses its own message instead of stalling the dispatcher of every stream
 //@   assert send: has(c.downstreams.ackCompletes, v.StreamIDAlias) && ch == c.downstreams.ackCompletes[v.StreamIDAlias] && unheld(c.downstreams.mu)
 
 //@ func (*ClientConn).readDownstreamMetadataLoop
 //@   props C07
+//@   assert send: nonblocking   // a stream whose consumer is behind loses its own message instead of stalling the dispatcher of every stream
 //@   assert send: has(c.downstreams.metadata, v.StreamIDAlias) && has(c.downstreams.metadata[v.StreamIDAlias], v.SourceNodeID) && ch == c.downstreams.metadata[v.StreamIDAlias][v.SourceNodeID]
 
 // ---------------------------------------------------------------- C09: lock discipline
